@@ -13,6 +13,7 @@ import (
 )
 
 var globalCS *ContractSet
+var boundedGlobal []map[string]any
 
 type Options struct {
 	Property string
@@ -238,6 +239,36 @@ func RunCheck(opt Options) int {
 	for _, u := range undecided {
 		fmt.Printf("UNDECIDED property=%s %s\n", opt.Property, u)
 	}
+
+	// bounded stand-ins: for units whose contract abstracts a loop (quick and thorough) and for every unit that names
+	// one (thorough). They are labelled bounded and never counted as discharged obligations.
+	var bounded []map[string]any
+	ranTests := map[string]bool{}
+	for _, u := range units {
+		if u.Bounded == "" || u.Kind == "lemma" {
+			continue
+		}
+		fc := cs.Funcs[u.Full]
+		need := opt.Tier == "thorough" || (fc != nil && len(fc.AbstractLoops) > 0)
+		if !need || ranTests[u.Pkg+"/"+u.Bounded] {
+			continue
+		}
+		ranTests[u.Pkg+"/"+u.Bounded] = true
+		hr := runHarness(opt, pkgRelOf(prog.ModPath, u.Pkg), u.Bounded, map[string]string{}, 300*time.Second)
+		bounded = append(bounded, map[string]any{"unit": u.Name, "test": u.Bounded, "status": hr.Status, "cases": hr.Cases, "text": hr.Text, "label": "bounded"})
+		switch hr.Status {
+		case "violation":
+			p := filepath.Join(replayDir, sanitize(u.Name)+"__bounded.json")
+			b, _ := json.MarshalIndent(map[string]any{"property": opt.Property, "obligation": u.Name + "#bounded." + u.Bounded, "harness": hr}, "", " ")
+			os.WriteFile(p, b, 0644)
+			out = append(out, fmt.Sprintf("VIOLATION property=%s replay=%s", opt.Property, p))
+			violations++
+		case "ok":
+		default:
+			toolErr = append(toolErr, fmt.Sprintf("bounded stand-in %s of %s did not run: %s", u.Bounded, u.Name, firstLine(hr.Text)))
+		}
+	}
+	boundedGlobal = bounded
 	for _, l := range out {
 		fmt.Println(l)
 	}
@@ -306,8 +337,16 @@ func vacuityGuards(units []*UnitResult, jobs []*VCJob, dir string) []string {
 	}
 	var chks []*chk
 	for u, js := range perUnit {
-		// longest assumption lists = paths that went furthest; check up to 3
+		// sample distinct paths across the whole range of assumption-list lengths (some paths are legitimately
+		// infeasible); the unit passes if any sampled path is satisfiable
 		sort.Slice(js, func(a, b int) bool { return len(js[a].Obl.Assume) > len(js[b].Obl.Assume) })
+		if len(js) > 16 {
+			var pick []*VCJob
+			for k := 0; k < 16; k++ {
+				pick = append(pick, js[k*(len(js)-1)/15])
+			}
+			js = pick
+		}
 		n := 0
 		seen := map[string]bool{}
 		for _, j := range js {
@@ -335,7 +374,7 @@ func vacuityGuards(units []*UnitResult, jobs []*VCJob, dir string) []string {
 			os.WriteFile(f, []byte(b.String()), 0644)
 			chks = append(chks, &chk{u: u, file: f})
 			n++
-			if n >= 3 {
+			if n >= 12 {
 				break
 			}
 		}
@@ -537,6 +576,7 @@ func writeEvidence(opt Options, units []*UnitResult, order []string, byObl map[s
 			"load_seconds":             tLoad,
 			"vcgen_seconds":            tGen,
 			"undecided":                undecided,
+			"bounded_standins":         boundedGlobal,
 			"vacuity_failures":         vac,
 			"samples":                  samples,
 		},
